@@ -705,8 +705,19 @@ func (fc *FnCtx) load(st *State, a *Addr) Val {
 }
 
 func isCheapInv(t types.Type) bool {
-	switch t.Underlying().(type) {
+	switch u := t.Underlying().(type) {
 	case *types.Basic, *types.Pointer, *types.Slice, *types.Map, *types.Chan:
+		return true
+	case *types.Struct:
+		// small structs: the invariants of their fields (slice headers, integer ranges)
+		if u.NumFields() > 6 {
+			return false
+		}
+		for i := 0; i < u.NumFields(); i++ {
+			if _, nested := u.Field(i).Type().Underlying().(*types.Struct); nested {
+				return false
+			}
+		}
 		return true
 	}
 	return false
@@ -822,10 +833,9 @@ func (fc *FnCtx) merge(ins []inEdge) *State {
 		for i := len(ins) - 2; i >= 0; i-- {
 			t = ite(ins[i].st.pc, get(ins[i].st), t)
 		}
-		if asConst {
-			return fc.sc.DefineConst(prefix, sortName, t)
-		}
-		return fc.sc.Define(prefix, sortName, t)
+		// merged values are declared constants (not macros): they may end up inside patterns
+		_ = asConst
+		return fc.sc.DefineConst(prefix, sortName, t)
 	}
 	// locals: union of keys
 	keys := map[*ssa.Alloc]bool{}
